@@ -41,6 +41,13 @@ def run(ctx):
             for pb in (False, True):
                 extra.append(dict(entry="pipeline", limit=lim, nlp=False, fuzzy=False, thr=0, ponly=True, pboost=pb, allplat=False,
                                   plats=[], nocross=False, boost=False, query=qk, corpus="mix"))
+    # made-up programs whose names begin or end like a recognised tool: the tool rule must not apply to them
+    for entry in ("universal", "cached", "monitored", "pipeline"):   # (the deprecated Search* entry points only know the host platform)
+        for qk in ("lex", "typo"):
+            for plats in ([], ["windows"], ["macos"], ["linux", "macos"]):
+                for nocross in (False, True):
+                    extra.append(dict(entry=entry, limit=rnd.choice([5, 40, 300]), nlp=rnd.random() < 0.5, fuzzy=entry != "pipeline", thr=0,
+                                      ponly=False, pboost=False, allplat=False, plats=plats, nocross=nocross, boost=False, query=qk, corpus="plat"))
     tr, info, ok, rej = engine.run_cases(ctx, scen + extra, ["C04"])
     for x in rej:
         ev = json.loads(x["trace"][x["at"] - 1])
